@@ -106,7 +106,10 @@ func (c *checkSchema) checkType(name string, typ ischema.Type, ss map[string]isc
 			// in the text it was written in: its index means nothing elsewhere.
 			if own := ownFile(typ); own == nil || jErr.File() == nil || jErr.File() == own {
 				jErr.SetFile(typ.RootFile)
-				jErr.SetIndex(bytes.Index(jErr.Index()) + typ.Begin)
+				// A text of no bytes at all (an empty type) has no byte to point at.
+				if typ.RootFile == nil || typ.RootFile.Content().Len() > 0 {
+					jErr.SetIndex(bytes.Index(jErr.Index()) + typ.Begin)
+				}
 			}
 			if !isUnnamedTypeName(name) {
 				jErr.SetIncorrectUserType(name)
@@ -283,6 +286,9 @@ func (c *checkSchema) ensureShortcutKeysAreValid(node *ischema.ObjectNode) error
 		if err != nil {
 			return lexeme.NewError(v.Lex, err)
 		}
+		if s.RootNode() == nil {
+			return lexeme.NewError(v.Lex, errs.ErrEmptyType.F(v.Key))
+		}
 		actualType := actualRootType(s, c.rootSchema)
 
 		if actualType != json.TypeString {
@@ -441,11 +447,14 @@ func getType(n string, rootSchema *ischema.ISchema, ss map[string]ischema.Type) 
 	}
 
 	defer func() {
-		if r := recover(); r == nil {
-			return
+		if r := recover(); r != nil {
+			ret = alternative()
 		}
-
-		ret = alternative()
+		// A type without any value (an empty text, only comments): there is
+		// nothing a reference to it could stand for, and no root node to look at.
+		if ret.RootNode() == nil {
+			panic(errs.ErrEmptyType.F(n))
+		}
 	}()
 	return main()
 }
